@@ -319,6 +319,8 @@ def gen_pair(rng):
     chan_mode = rng.choice(['disjoint', 'disjoint', 'identical', 'conflict', 'mixed'])
     meas_mode = rng.choice(['disjoint', 'identical', 'compatible', 'conflict-param', 'conflict-poi', 'disjoint'])
     ver_mode = 'same' if rng.random() < 0.9 else 'different'
+    if rng.random() < 0.3:          # fully disjoint pairs: the case the likelihood statements are about
+        chan_mode, meas_mode, ver_mode = 'disjoint', 'disjoint', 'same'
     lm = rng.sample(M_POOL, rng.choice([1, 1, 2]))
     left = gen_ws(rng, names[:nl], lm, tag='')
     if meas_mode == 'disjoint':
@@ -498,9 +500,20 @@ def run_op(op, env, cache=None):
     return out
 
 
+def nontrivial(op, env, res):
+    """an operation that has something to do: any combine; prune / rename with at least one name; sorted of a workspace
+    that is not already in sorted order (or that is refused)"""
+    if op['op'] == 'combine':
+        return True
+    if op['op'] in ('prune', 'rename'):
+        return any(op['args'].get(k) for k in op['args'])
+    return res['outcome'] != 'ok' or json.dumps(res['out'], sort_keys=True) != json.dumps(jround(env[op['w']]), sort_keys=True)
+
+
 def process_group(arg):
     """worker: run every operation of one group and evaluate the property rules.  Returns (results, failures)"""
-    g, lik = arg
+    g, lik, backend = arg
+    BACKEND[0] = backend
     cache = {}
     results, fails = [], []
     for oi, op in enumerate(g['ops']):
@@ -587,9 +600,16 @@ class LikelihoodUnavailable(Exception):
     pass
 
 
+BACKEND = ['numpy']
+
+
 def build_model(spec, measurement=None):
     import pyhf
-    pyhf.set_backend('numpy')
+    try:
+        if pyhf.tensorlib.name != BACKEND[0]:
+            pyhf.set_backend(BACKEND[0])
+    except Exception as e:
+        raise LikelihoodUnavailable('backend %s: %s' % (BACKEND[0], e))
     try:
         w = pyhf.Workspace(copy.deepcopy(spec))
         m = w.model(measurement_name=measurement) if measurement else w.model()
@@ -622,6 +642,8 @@ def eval_model(w, model, rename=None, neutral=()):
 
 def _eval_model(w, model, rename, neutral):
     import numpy as np
+    import pyhf
+    T = pyhf.tensorlib.astensor
     pars = pars_by_name(model, rename)
     for n in neutral:
         if n in model.config.par_map:
@@ -630,12 +652,13 @@ def _eval_model(w, model, rename, neutral):
             pars[sl] = ps.auxdata if (ps.constrained and ps.pdf_type == 'normal') else 1.0
     data = np.asarray(w.data(model), dtype=float)
     nm = model.config.nmaindata
-    main = float(np.asarray(model.mainlogpdf(data[:nm], pars)).reshape(-1)[0])
+    pars = T(pars.tolist())
+    main = float(np.asarray(model.mainlogpdf(T(data[:nm].tolist()), pars)).reshape(-1)[0])
     try:
-        cons = float(np.asarray(model.constraint_logpdf(data[nm:], pars)).reshape(-1)[0]) if model.config.nauxdata else 0.0
+        cons = float(np.asarray(model.constraint_logpdf(T(data[nm:].tolist()), pars)).reshape(-1)[0]) if model.config.nauxdata else 0.0
     except IndexError:
         cons = 0.0
-    tot = float(np.asarray(model.logpdf(pars, data)).reshape(-1)[0])
+    tot = float(np.asarray(model.logpdf(pars, T(data.tolist()))).reshape(-1)[0])
     if not all(math.isfinite(x) for x in (main, cons, tot)):
         raise LikelihoodUnavailable('non-finite log-likelihood')
     exp = np.asarray(model.expected_actualdata(pars), dtype=float)
@@ -816,7 +839,7 @@ def check_properties(op, env, res, lik):
                     if set(names(o, sect)) != want or not uniq(names(o, sect)):
                         out.append(('combine-%s-names' % sect, 'combine(join=%r): %s names of the result are not the union, once each' % (op['join'], sect), dict(got=names(o, sect))))
                 prim, sec = (r, l) if op['join'] == 'right outer' else (l, r)
-                for sect in ['channels', 'observations']:
+                for sect in ['channels', 'observations'] + (['measurements'] if op['join'] in ('left outer', 'right outer') else []):
                     for x in prim[sect]:
                         if not any(same_doc(x, y) for y in o[sect]):
                             out.append(('combine-drops-primary-' + sect, 'combine(join=%r) lost or altered an entry of the preferred input' % op['join'], dict(item=x)))
@@ -1188,8 +1211,12 @@ def run(ctx):
         ok, txt = core.prove(ctx)
         if not ok:
             tie = 'proof obligations of props/C16.v no longer check: ' + txt[-1200:]
+    ctx.log('facts extracted, %d/%d obligations discharged' % (ctx.discharged, ctx.obligations))
     ctx.trusted += ['harness/props/c16.py: workspace generators, python dict -> Gallina AST printer (fail closed on unknown keys)',
                     'numbers are compared by exact value (the int/float spelling of a JSON number is not modelled; Python == ignores it too)',
+                    'documents are compared through an 89-bit fingerprint of the canonical (key-sorted) token stream, computed inside Coq '
+                    '(PV.WorkspaceRun.fp over canon (json_of_ws model_result)) and by the same function in Python over pyhf\'s result; on a mismatch the '
+                    'model document is printed by Coq into the replay (shipping full documents into Coq costs ~45 us/byte of parsing)',
                     'jsonschema validation is represented by the structural predicate schema_ok (workspace.json 1.0.0: non-empty lists, modifier data shapes, lumi name)',
                     'model.logpdf / mainlogpdf / constraint_logpdf / expected_data of pyhf (numpy backend) are used to evaluate likelihoods of inputs and outputs (the pdf itself is C01/C02)']
     ctx.assumptions += ['likelihood-level theorems are stated against the name-indexed reference semantics of PV.WorkspaceLik (abstract factor / log-density functions)',
@@ -1207,7 +1234,8 @@ def run(ctx):
     import concurrent.futures
     import multiprocessing
     import pyhf  # noqa: F401  (imported before forking)
-    args = [(g, gi < ncorpus + nlik) for gi, g in enumerate(groups)]
+    args = [(g, gi < ncorpus + nlik, 'numpy') for gi, g in enumerate(groups)]
+    backends = ['numpy']
     with concurrent.futures.ProcessPoolExecutor(max_workers=min(12, core.NCPU), mp_context=multiprocessing.get_context('fork')) as ex:
         processed = list(ex.map(process_group, args, chunksize=2))
     all_results = []
@@ -1221,7 +1249,8 @@ def run(ctx):
                 stats['by_join'][key] = stats['by_join'].get(key, 0) + 1
             if res.get('lik'):
                 stats['lik_evaluated'] += 1
-            sigs.add(json.dumps([op, {k: g['env'][k] for k in ([op['l'], op['r']] if op['op'] == 'combine' else [op['w']])}], sort_keys=True, default=str))
+            if nontrivial(op, g['env'], res):
+                sigs.add(json.dumps([op, {k: g['env'][k] for k in ([op['l'], op['r']] if op['op'] == 'combine' else [op['w']])}], sort_keys=True, default=str))
         for oi, sig, what, extra in fails:
             found_concrete = True
             report(ctx, g, g['ops'][oi], results[oi], sig, what, extra)
@@ -1230,6 +1259,28 @@ def run(ctx):
             stats['tags'][kk] = stats['tags'].get(kk, 0) + 1
         all_results.append(results)
     ctx.log('implementation: %d operations on %d groups' % (stats['ops'], len(groups)))
+    if not ctx.quick:
+        per = 70
+        for bi, be in enumerate(['jax', 'pytorch', 'tensorflow']):
+            sub = [g for gi, g in enumerate(groups) if gi >= ncorpus and (gi - ncorpus) % 3 == bi][:per]
+            try:
+                with concurrent.futures.ProcessPoolExecutor(max_workers=4, mp_context=multiprocessing.get_context('spawn')) as ex:
+                    done = list(ex.map(process_group, [(g, True, be) for g in sub], chunksize=4))
+            except Exception as e:
+                ctx.notes.append('backend %s pass crashed: %s' % (be, str(e)[:200]))
+                continue
+            nl = 0
+            for g, (results, fails) in zip(sub, done):
+                nl += sum(1 for r in results if r.get('lik'))
+                for oi, sig, what, extra in fails:
+                    found_concrete = True
+                    report(ctx, g, g['ops'][oi], results[oi], sig + ':' + be if 'lik' in sig or 'rates' in sig else sig, what + ' [backend %s]' % be, extra)
+            stats['lik_evaluated_' + be] = nl
+            if nl:
+                backends.append(be)
+            ctx.log('backend %s: %d likelihood checks on %d groups' % (be, nl, len(sub)))
+    ctx.coverage['backends'] = backends
+    ctx.coverage['likelihood_checks_by_backend'] = {k[len('lik_evaluated_'):]: v for k, v in stats.items() if k.startswith('lik_evaluated_')}
 
     # ---- model inside Coq ----
     disagree = []
@@ -1280,11 +1331,11 @@ def run(ctx):
     ctx.coverage.update(
         evaluations=stats['ops'], distinct_nontrivial=len(sigs),
         rule='one evaluation = one pyhf operation (combine / prune / rename / sorted) whose outcome (document or exception class) is '
-             'compared with the Coq model and checked against the property rules; all are non-trivial (>=1 channel with >=1 sample, a measurement, '
-             'an observation); distinct by (operation, arguments, input documents)',
+             'compared with the Coq model and checked against the property rules; non-trivial = any combine, a prune / rename naming at least '
+             'one item, a sorted() whose input is not already sorted; distinct by (operation, arguments, input documents)',
         groups=len(groups), corpus=ncorpus, op_counts={k: stats[k] for k in ['combine', 'prune', 'rename', 'sorted']},
         impl_outcomes=stats['outcomes'], model_outcomes=model_stats, combine_by_join=stats['by_join'], pair_kinds=stats['tags'],
-        likelihood_checks=stats['lik_evaluated'], disagreements=len(disagree), backends=['numpy'],
+        likelihood_checks=stats['lik_evaluated'], disagreements=len(disagree),
         samples=[dict(op=groups[ncorpus]['ops'][0], left_channels=[c['name'] for c in groups[ncorpus]['env']['l']['channels']],
                       right_channels=[c['name'] for c in groups[ncorpus]['env']['r']['channels']], impl=all_results[ncorpus][0]['outcome']),
                  dict(op=groups[ncorpus]['ops'][-1], impl=all_results[ncorpus][-1]['outcome'])] if len(groups) > ncorpus else [])
